@@ -9,6 +9,8 @@ mod dump;
 mod hooks;
 mod panic_check;
 mod seq;
+mod sets;
+mod tlsim;
 mod types;
 
 use serde_json::json;
@@ -196,7 +198,19 @@ fn cmd_conc(args: &[String]) {
                 }
             }
             let stick = [0u64, 8, 12, 14, 15][(si % 5) as usize];
-            let opts = RunOpts { policy: Policy::Random(types::SplitMix64(sseed), stick), step_limit: 200_000, freeze: None };
+            let policy = if si % 3 == 2 {
+                // one thread sleeps at a random point of its run while the others go on
+                let mut srng = types::SplitMix64(sseed ^ 0x51EE);
+                let victim = srng.below(prog.threads.len() as u64) as usize;
+                let at = srng.below(90);
+                let dur = [40u64, 150, 600, 5000][srng.below(4) as usize];
+                Policy::Sleeper(types::SplitMix64(sseed), stick, victim, at, dur)
+            } else {
+                Policy::Random(types::SplitMix64(sseed), stick)
+            };
+            let opts = RunOpts { policy, step_limit: 200_000, freeze: None };
+            // if the implementation takes the process down, the last AT line names the run
+            println!("AT conc seed={} prog={} sched={} kinds={} || {}", seed, pi, si, args[3], program_text(&prog));
             let r = with_hasher!(prog.hasher, S, { run_program::<S>(&prog, opts) });
             runs += 1;
             hb.0 += r.hb_stats.0;
@@ -400,13 +414,96 @@ fn cmd_binsim(args: &[String]) {
     );
 }
 
+/// HashSet against std and the relation specification
+fn cmd_sets(args: &[String]) {
+    // sets <seed> <n> <out.v>
+    let seed: u64 = args[0].parse().unwrap();
+    let n: u64 = args[1].parse().unwrap();
+    silence_panics();
+    let r = match std::panic::catch_unwind(|| sets::run(seed, n)) {
+        Ok(r) => r,
+        Err(_) => {
+            println!("FOUND C02 sets: a HashSet operation panicked (seed {})", seed);
+            println!("JSON {}", json!({"cases": 0, "found": 1}));
+            return;
+        }
+    };
+    for f in r.failures.iter().take(8) {
+        println!("FOUND C02 sets: {}", f);
+    }
+    std::fs::write(&args[2], &r.coq).expect("write case file");
+    println!(
+        "JSON {}",
+        json!({"cases": r.cases, "operations": r.ops, "relation_checks": r.relation_checks, "equal_pairs": r.equal_pairs, "found": r.failures.len()})
+    );
+}
+
+/// step-by-step conformance of Model/TreeLock.v: writes a Coq case file
+fn cmd_tlsim(args: &[String]) {
+    // tlsim <seed> <n_programs> <schedules_per_program> <gen.json> <out.v>
+    use conc::*;
+    use hooks::Policy;
+    let seed: u64 = args[0].parse().unwrap();
+    let n: u64 = args[1].parse().unwrap();
+    let scheds: u64 = args[2].parse().unwrap();
+    load_site_fns(&args[3]);
+    let sites = tlsim::TlSites::load(&args[3]);
+    let out_v = &args[4];
+    silence_panics();
+    hooks::install();
+    let mut rng = types::SplitMix64(seed ^ 0x7171);
+    let mut coq = String::from("From Flurry Require Import Model.TreeConf.\nImport ListNotations.\nOpen Scope Z_scope.\n");
+    let (mut runs, mut cases, mut psteps, mut parks, mut rounds, mut found, mut parked_runs) = (0u64, 0u64, 0u64, 0u64, 0u64, 0u64, 0u64);
+    if !sites.shape_ok() {
+        found += 1;
+        println!("SHAPE C11 tlsim: the regenerated site table no longer has two lock_state CASes and two waiter swaps in contended_lock and one waiter load in find");
+    } else {
+        for pi in 0..n {
+            let mut prng = rng.fork();
+            let prog = tlsim::gen_tl_program(&mut prng);
+            for si in 0..scheds {
+                let sseed = prng.next();
+                let stick = [0u64, 4, 8, 12, 2][(si % 5) as usize];
+                let r = binsim::run_one(&prog, Policy::Random(types::SplitMix64(sseed), stick));
+                runs += 1;
+                let o = tlsim::tl_case(&prog, &r, &sites);
+                psteps += o.protocol_steps as u64;
+                parks += o.parks;
+                rounds += o.rounds as u64;
+                if o.parks > 0 {
+                    parked_runs += 1;
+                }
+                let mut fails = r.failures.clone();
+                fails.extend(o.failures);
+                for f in fails.iter().take(1) {
+                    found += 1;
+                    println!("FOUND C11 tlsim seed={} prog={} sched={} || {} || {}", seed, pi, si, f.replace('\n', " "), program_text(&prog));
+                }
+                if let Some(c) = o.coq {
+                    println!("CASE {} tlsim seed={} prog={} sched={} || {} || trace: {}", cases, seed, pi, si, program_text(&prog), trace_text(&r.trace));
+                    coq.push_str(&format!("Eval vm_compute in ({}%N, {}).\n", cases, c));
+                    cases += 1;
+                }
+            }
+        }
+    }
+    std::fs::write(out_v, coq).expect("write case file");
+    println!(
+        "JSON {}",
+        json!({"runs": runs, "cases": cases, "protocol_steps": psteps, "parks": parks, "runs_with_a_parked_writer": parked_runs,
+               "write_lock_rounds": rounds, "found": found})
+    );
+}
+
 /// directed race templates: scripts over function entries with enumerated step offsets
 fn cmd_directed(args: &[String]) {
-    // directed <gen.json> <max_offset>
+    // directed <gen.json> <max_offset> [templates: csv of treeify,treelock,park,stale | all]
     use conc::*;
     use hooks::{Cond, Policy, Verdict};
     load_site_fns(&args[0]);
     let max_off: u64 = args[1].parse().unwrap();
+    let which: String = args.get(2).cloned().unwrap_or_else(|| "all".into());
+    let want = |t: &str| which == "all" || which.split(',').any(|x| x == t);
     silence_panics();
     hooks::install();
     let mut runs = 0u64;
@@ -415,7 +512,7 @@ fn cmd_directed(args: &[String]) {
     // template 1 (the race behind F5): a bin at the treeify threshold is drained between the
     // insert that crossed it and its treeify_bin; the 1-node tree bin is then emptied while a
     // third thread iterates
-    for cap in [64u64, 100] {
+    for cap in if want("treeify") { vec![64u64, 100] } else { vec![] } {
         for off in 1..=max_off {
             let prog = Program {
                 hasher: types::H_ZERO,
@@ -462,7 +559,7 @@ fn cmd_directed(args: &[String]) {
         }
     }
     // template 2: a reader inside a tree bin while a writer restructures it (lock_root contention)
-    for off in 1..=max_off {
+    for off in if want("treelock") { 1..=max_off } else { 1..=0 } {
         let prog = Program {
             hasher: types::H_ZERO,
             cap: 64,
@@ -500,6 +597,153 @@ fn cmd_directed(args: &[String]) {
             found += 1;
             let tag = if f.starts_with('C') { f[..3].to_string() } else { "C11".to_string() };
             println!("FOUND {} directed template=tree_lock offset={} || {} || {}", tag, off, f.replace('\n', " "), program_text(&prog));
+        }
+    }
+    // template 3 (lost wake-up search): a reader holds the read lock of a tree bin; the writer runs
+    // alone until it blocks (pass 1 counts its steps S); then, for every cut among its last steps
+    // before blocking and every split of the reader's exit, the reader leaves inside that window
+    for (wop, rkey) in if want("park") { vec![(COp::Remove(5), 11u32), (COp::Remove(0), 3), (COp::Insert(20, 1), 11)] } else { vec![] } {
+        let prog = Program {
+            hasher: types::H_ZERO,
+            cap: 64,
+            prefill: (0..12).collect(),
+            threads: vec![vec![COp::Get(rkey)], vec![wop.clone(), COp::Get(1)]],
+            universe: 22,
+            batch: 1,
+            pin: false,
+            linger: 0,
+        };
+        let base = vec![(0usize, Cond::EntersFn("find_tree_node".into())), (1usize, Cond::Done), (0, Cond::Done), (1, Cond::Done)];
+        let opts = RunOpts { policy: Policy::Directed(base, 0), step_limit: 400_000, freeze: None };
+        println!("AT directed template=park_window pass=1 || {}", program_text(&prog));
+        let r = with_hasher!(prog.hasher, S, { run_program::<S>(&prog, opts) });
+        runs += 1;
+        // the writer's first uninterrupted run
+        let first_w = r.trace.iter().position(|t| *t == 1);
+        let s_steps = match first_w {
+            Some(i) => r.trace[i..].iter().take_while(|t| **t == 1).count() as u64,
+            None => 0,
+        };
+        if r.parks == 0 || s_steps == 0 {
+            // the writer did not have to wait for the reader in this shape: nothing to cut
+            continue;
+        }
+        if samples.len() < 6 {
+            samples.push(format!("park window: writer {:?} blocks after {} steps with the reader inside", wop, s_steps));
+        }
+        // the reader's run after the writer blocked (its way out of the read lock)
+        let r_steps = match first_w {
+            Some(i) => r.trace[i + s_steps as usize..].iter().take_while(|t| **t == 0).count() as u64,
+            None => 0,
+        };
+        for k in 1..=max_off.min(16).min(s_steps) {
+            // the reader stops 0..4 steps short of finishing inside the window, or does nothing
+            for j in (r_steps.saturating_sub(4)..=r_steps).chain(std::iter::once(0)) {
+                let script = vec![
+                    (0usize, Cond::EntersFn("find_tree_node".into())),
+                    (1usize, Cond::Steps(s_steps - k)),
+                    (0, Cond::Steps(j)),
+                    (1, Cond::Steps(k)),
+                    (0, Cond::Done),
+                    (1, Cond::Done),
+                ];
+                let opts = RunOpts { policy: Policy::Directed(script, 0), step_limit: 400_000, freeze: None };
+                println!("AT directed template=park_window cut={} reader_steps={} || {}", k, j, program_text(&prog));
+                let r = with_hasher!(prog.hasher, S, { run_program::<S>(&prog, opts) });
+                runs += 1;
+                let mut fails = r.failures.clone();
+                match r.verdict {
+                    Verdict::Deadlock => fails.push(format!(
+                        "C11: deadlock (lost wake-up): every unfinished thread is blocked: {}; schedule: reader until it holds the read lock, writer {} steps, reader {} steps, writer {} steps, reader to the end",
+                        r.statuses,
+                        s_steps - k,
+                        j,
+                        k
+                    )),
+                    Verdict::StepLimit => fails.push("C11: step limit exceeded".into()),
+                    _ => {}
+                }
+                fails.extend(check_history(&prog, &r));
+                fails.extend(check_quiescent(&prog, &r));
+                for f in fails.iter().take(1) {
+                    found += 1;
+                    let tag = if f.starts_with('C') { f[..3].to_string() } else { "C11".to_string() };
+                    println!("FOUND {} directed template=park_window cut={} reader_steps={} || {} || {}", tag, k, j, f.replace('\n', " "), program_text(&prog));
+                }
+            }
+        }
+    }
+    // template 4 (a helper that slept through a generation): thread 0 meets a forwarding marker of
+    // the first resize (16 -> 32) and stops inside help_transfer after k of its shared operations;
+    // thread 1 completes that resize; thread 2 fills the new table, starts the second resize
+    // (32 -> 64) and stops after y operations of its transfer; thread 0 goes on for z operations;
+    // thread 2 finishes; thread 0 finishes. The resize must still complete and be published once.
+    {
+        let prog = Program {
+            hasher: types::H_IDENTITY,
+            cap: 8,
+            prefill: (0..11).collect(),
+            threads: vec![
+                vec![COp::Insert(31, 131)],
+                vec![COp::Insert(11, 111)],
+                (12..24).map(|k| COp::Insert(k, 100 + k as i64)).chain(std::iter::once(COp::Get(31))).collect(),
+            ],
+            universe: 40,
+            batch: 1,
+            pin: false,
+            linger: 0,
+        };
+        let lim = if want("stale") { max_off.min(12) } else { 0 };
+        let mut stale_found = 0u64;
+        let quick = max_off <= 40;
+        let xs: Vec<u64> = if quick { vec![10, 12, 16] } else { vec![8, 10, 12, 16, 24] };
+        for x in xs {
+            for k in 1..=(if quick { 4u64 } else { 6 }) {
+                for y in 1..=(if quick { lim.min(6) } else { lim }) {
+                    for z in 2..=(if quick { 6u64 } else { 7 }) {
+                        if stale_found >= 3 {
+                            continue;
+                        }
+                        let script = vec![
+                            (1usize, Cond::EntersFn("transfer".into())),
+                            (1, Cond::Steps(x)),
+                            (0, Cond::EntersFn("help_transfer".into())),
+                            (0, Cond::Steps(k)),
+                            (1, Cond::Done),
+                            (2, Cond::EntersFn("transfer".into())),
+                            (2, Cond::Steps(y)),
+                            (0, Cond::Steps(z)),
+                            (2, Cond::Done),
+                            (0, Cond::Done),
+                        ];
+                        let opts = RunOpts { policy: Policy::Directed(script, 0), step_limit: 400_000, freeze: None };
+                        println!("AT directed template=stale_helper x={} k={} y={} z={} || {}", x, k, y, z, program_text(&prog));
+                        let r = with_hasher!(prog.hasher, S, { run_program::<S>(&prog, opts) });
+                        runs += 1;
+                        let mut fails = r.failures.clone();
+                        match r.verdict {
+                            Verdict::Deadlock => fails.push(format!("C11: deadlock: {}", r.statuses)),
+                            Verdict::StepLimit => fails.push("C11: step limit exceeded".into()),
+                            _ => {}
+                        }
+                        fails.extend(check_quiescent(&prog, &r));
+                        fails.extend(check_resize_events(&r));
+                        fails.extend(check_history(&prog, &r));
+                        for f in fails.iter().take(1) {
+                            found += 1;
+                            stale_found += 1;
+                            let tag = if f.starts_with('C') { f[..3].to_string() } else { "C10".to_string() };
+                            println!(
+                                "FOUND {} directed template=stale_helper x={} k={} y={} z={} || {} (schedule: thread 1 {} steps into the first transfer; thread 0 {} steps into help_transfer; thread 1 to the end; thread 2 until {} steps into the second transfer; thread 0 {} steps; thread 2 to the end; thread 0 to the end) || {}",
+                                tag, x, k, y, z, f.replace('\n', " "), x, k, y, z, program_text(&prog)
+                            );
+                        }
+                    }
+                }
+            }
+        }
+        if samples.len() < 8 {
+            samples.push(format!("stale helper across two resize generations: {} found", stale_found));
         }
     }
     println!("JSON {}", json!({"runs": runs, "found": found, "samples": samples}));
@@ -897,6 +1141,8 @@ fn main() {
         "travseq" => cmd_travseq(&args[2..]),
         "directed" => cmd_directed(&args[2..]),
         "binsim" => cmd_binsim(&args[2..]),
+        "sets" => cmd_sets(&args[2..]),
+        "tlsim" => cmd_tlsim(&args[2..]),
         "atomics" => cmd_atomics(&args[2..]),
         "panic" => cmd_panic(&args[2..]),
         "bulk" => cmd_bulk(&args[2..]),
